@@ -320,8 +320,10 @@ def run_check(prop, tier, seed):
         "wall_s": round(wall, 2),
         "violations": len(viol_lines),
     }
-    (ROOT / "evidence").mkdir(exist_ok=True)
-    evpath = ROOT / "evidence" / f"{prop}.json"
+    # runs against a scratch copy of biotite (seeded changes) must not overwrite the evidence of /repo
+    evdir = Path(os.environ.get("VERIF_EVIDENCE_DIR") or (ROOT / "evidence"))
+    evdir.mkdir(parents=True, exist_ok=True)
+    evpath = evdir / f"{prop}.json"
     tmp_ev = f"{evpath}.{os.getpid()}.tmp"
     with open(tmp_ev, "w") as f:
         json.dump(strict_json(evidence, max_len=10**9), f, indent=1, sort_keys=True)
